@@ -141,7 +141,9 @@ def run_case(ctx, mon, cfg_id, terms, prods, inputs_spec=None, rng=None):
     if inputs_spec is None:
         inputs_spec = []
         for toks in build_inputs(rng, prods, start, terms):
-            text, expected = cfg.render(rng, toks, dense=rng.random() < 0.2)
+            toks, text, expected = cfg.render_checked(rng, toks, dense=rng.random() < 0.2)
+            if toks is None:
+                continue
             inputs_spec.append((toks, text, expected, rng.random() < 0.3))
     for k_input, (toks, text, expected, as_lines) in enumerate(inputs_spec):
         if k_input == 1 and len(prods) > 1:
